@@ -7,6 +7,8 @@ package e2e
 // n-th occurrence of one of them.
 
 import (
+	"runtime"
+	"strings"
 	"sync"
 
 	"github.com/ovn-org/libovsdb/client"
@@ -21,6 +23,7 @@ type Points struct {
 	count     int
 	arrived   chan struct{}
 	release   chan struct{}
+	inFunc    []string // HoldNextIn: park the first goroutine announcing any point with one of these in its stack
 }
 
 var points = &Points{}
@@ -38,6 +41,17 @@ func (p *Points) at(pt string) {
 	p.mu.Lock()
 	if p.recording {
 		p.seq = append(p.seq, pt)
+	}
+	if len(p.inFunc) > 0 {
+		buf := make([]byte, 8192)
+		st := string(buf[:runtime.Stack(buf, false)])
+		for _, f := range p.inFunc {
+			if strings.Contains(st, f) {
+				p.inFunc = nil
+				p.hold, p.nth, p.count = pt, 1, 0
+				break
+			}
+		}
 	}
 	if p.hold != pt {
 		p.mu.Unlock()
@@ -78,11 +92,20 @@ func (p *Points) Hold(point string, nth int) <-chan struct{} {
 	return p.arrived
 }
 
+// HoldNextIn parks the first goroutine that announces a point while one of the given function names is on its stack.
+func (p *Points) HoldNextIn(funcs ...string) <-chan struct{} {
+	p.mu.Lock()
+	defer p.mu.Unlock()
+	p.hold, p.inFunc = "", funcs
+	p.arrived = make(chan struct{})
+	return p.arrived
+}
+
 // Release lets the parked goroutine continue and disarms the hold.
 func (p *Points) Release() {
 	p.mu.Lock()
 	defer p.mu.Unlock()
-	p.hold = ""
+	p.hold, p.inFunc = "", nil
 	if p.release != nil {
 		close(p.release)
 		p.release = nil
